@@ -130,12 +130,9 @@ class SignAuthorized(Contract):
         if sighash_computation_mode.netvalue == 1:
             if is_none(witness_script) or is_none(outpoint_value):
                 return False
-            return (is_hex(witness_script) and 0 <= outpoint_value and outpoint_value < 18446744073709551616
-                    and len(unhex(witness_script)) < 65000)
+            return is_hex(witness_script) and 0 <= outpoint_value and outpoint_value < 18446744073709551616
         return is_none(witness_script) and is_none(outpoint_value)
-    @only("C03")
-    def pre_tx_size(btc_tx): return len(unhex(btc_tx)) < 4294967289
-    requires = [pre_path, pre_input_index, pre_hex, pre_segwit_fields, pre_tx_size]
+    requires = [pre_path, pre_input_index, pre_hex, pre_segwit_fields]
 
     # ---- merkle proof framing loop
     def inv_flat(i, merkle_proof_bytes, receipt_merkle_proof, g, old):
